@@ -260,6 +260,18 @@ def run (st : St) (args : List Str) (impl : String) : St × String × String × 
     else if c = str "corrupt" then
       -- the harness wipes/garbles index entries directly in the database; the model forgets them
       ({ st with db := [] }, "ok", "-", "corrupt")
+    else if c = str "initrace" then
+      -- a Create of the seed id commits while Init's transaction is open. Init has read that key, so its
+      -- commit conflicts and Init fails as a whole (nothing seeded, not marked); the acknowledged Create
+      -- stays. When the store is already initialised Init returns before it gets there; when the id
+      -- already exists the Create is a duplicate and Init only sets its mark.
+      let user : Val := ⟨str "user", str "g"⟩
+      if st.seeded then (st, "init=ok create=none", "init=ok create=none", "initrace-again")
+      else if (aget st.vals (str "s1")).isSome then
+        ({ st with seeded := true }, "init=ok create=err:dup", "init=ok create=err:dup", "initrace-dup")
+      else
+        ({ st with vals := aset st.vals (str "s1") user, tasks := st.tasks ++ [⟨str "s1", none, some user⟩] },
+          "init=err create=ok", "init=err create=ok", "initrace-conflict")
     else if c = str "init" then
       -- Init seeds s1 once
       if st.seeded then (st, "ok cbs=-", "ok cbs=-", "init-again")   -- C12: seeds exactly once
@@ -274,6 +286,7 @@ def run (st : St) (args : List Str) (impl : String) : St × String × String × 
   | [c, a] =>
     if c = str "cfg" then ({ mock := a = str "mock" ∨ a = str "mockid", genIds := a = str "mockid", pfx := a = str "badgerp" }, "ok", "-", "triv-cfg")
     else if c = str "veto" then ({ st with veto := a = str "on" }, "ok", "-", "triv-veto")
+    else if c = str "slow" then (st, "ok", "-", "triv-slow")
     else if c = str "delete" then
       let (o, st', tag) := mutate st a .delete
       (st', o, o, "delete-" ++ tag)
